@@ -155,6 +155,24 @@ def run(ctx) -> None:
                     if k.startswith('model.') and k.endswith('.value'):
                         ctx.bad('H4', f'EconomicsAddOns.Calculate/overwrites:{k}', f'{addon.module.rel}:{st.lineno}',
                                 f'`{norm(st)[:80]}` overwrites a base result wholesale')
+    ctx.rule('H5', 'a supplied cost equal to its default is stored and counted as provided (C07 V9): otherwise the base run falls back to a correlation while the scaled runs use the input')
+    ctx.rule('H6', 'each product\'s price model is built from that product\'s own inputs, in Economics and SBTEconomics (C16 B3)')
+    ctx.rule('H7', 'sync functions decide on .Provided whether the user gave a value (shared S3)')
+    from gxstat.runner import Renamed
+    from rules.c07 import check_reader_arm
+    from rules.c16 import check_b3
+    from rules.rate_sync import check_sync_guards
+    rp = ctx.repo.module('geophires_x/Parameter.py').functions.get('ReadParameter')
+    ctx.require(rp is not None, 'Parameter.ReadParameter not found')
+    n0 = len(ctx.obligations)
+    check_reader_arm(Renamed(ctx, {'V9': 'H5'}), rp, 'floatParameter', 'float')
+    ctx.floor('H5', len(ctx.obligations) - n0, 2, 'reader obligations')
+    n0 = len(ctx.obligations)
+    check_b3(Renamed(ctx, {'B3': 'H6'}, key_filter=lambda k: True), ctx.repo.method('Economics', 'Calculate', 'geophires_x/Economics.py'), 'Economics')
+    check_b3(Renamed(ctx, {'B3': 'H6'}, key_filter=lambda k: True), ctx.repo.method('SBTEconomics', 'Calculate', 'geophires_x/SBTEconomics.py'), 'SBTEconomics')
+    ctx.floor('H6', len(ctx.obligations) - n0, 6, 'price/credit model construction sites')
+    n7 = check_sync_guards(ctx, 'H7')
+    ctx.floor('H7', n7, 2, 'sync guards')
     ctx.undecided('strict monotonicity of NPV in sale prices (the ending-price cap makes it non-strict)',
                   'homogeneity of correlation-based component costs in the adjustment factors (not homogeneous by design)',
                   'paired-run equalities as runs')
